@@ -7,6 +7,7 @@ import JaxVerif.Generated.Rollback
 import JaxVerif.Lemmas.Rollback
 import JaxVerif.Lemmas.Idem
 import JaxVerif.Source.Trees
+import JaxVerif.Source.Storage
 
 namespace JV
 
@@ -120,5 +121,14 @@ theorem C04_source_pytree_rollback (env : TEnv) (ac : Catch) (hf : FlattenKept e
       some (if env.bare then (st, .T)
             else pytreeInstancecheck (goodSkel ac) env.leafCheck env.leafAny env.S env.x st) :=
   source_tree_instancecheck env ac hf st
+
+/-- the rollback's reach, from the source read today: `set_shape_memo` replaces the TOP frame by the four tables it is
+    given, each in its own slot, and does nothing outside a context; reading never creates a frame -/
+theorem C04_source_storage (ctx : SCtx) (cell : Option (List Memo)) :
+    runStorageFn Generated.storageFuns ctx Generated.setShapeMemoCode cell
+      = some ((match cell with | some (_ :: r) => some (ctx.M :: r) | c => c), .none) ∧
+    runStorageFn Generated.storageFuns ctx Generated.getShapeMemoCode cell
+      = some (cell, .frame (match cell with | some (_ :: _) => .top | _ => .empty)) :=
+  ⟨source_storage_set ctx cell, source_storage_get ctx cell⟩
 
 end JV
